@@ -25,7 +25,7 @@ ASSUMPTIONS = [
     "tolerance = half a unit of the last printed digit of the token fmt % x, plus 4 ulp of slack",
 ]
 REQUIRED = ["write_read_pairs", "samples_compared", "wrapped_pairs_multi_line", "pairs_curve_count_multiple_of_capacity",
-            "engine_numpy_pairs", "engine_normal_pairs", "nan_samples_compared", "index_null_equal_samples", "cases_in_memory_dlm_not_space", "rewrites_after_inplace_edit", "cases_data_width_equals_widest_field"]
+            "engine_numpy_pairs", "engine_normal_pairs", "nan_samples_compared", "index_null_equal_samples", "cases_in_memory_dlm_not_space", "rewrites_after_inplace_edit", "cases_data_width_equals_widest_field", "second_generation_writes"]
 SOFT_DEADLINE = {"quick": 90, "thorough": 1500}
 LEVEL_TEXT = ("Exploration of the (shape x values x writer options x engine) product space with a per-sample oracle whose "
               "tolerance is derived from the token actually printed; line capacity is observed from the emitted text.")
@@ -258,6 +258,23 @@ def run_case(case, ctx):
             if not abs(y - x) <= tol:
                 ctx.violation("sample-outside-printed-precision:" + tag, "curve #%d row %d: %r written as %r, read back %r (tolerance %g)" % (
                     j, i, x, tok, y, tol), detail)
+    # ---- second generation: the object just read (its arrays may be views into one block) written with the same options -----
+    if case.get("seed", 0) % 4 == 3:
+        ctx.count("second_generation_writes")
+        b2 = io.StringIO()
+        try:
+            las2.write(b2, **kw)
+        except Exception as e:
+            ctx.violation("second-generation-write-raised:%s" % type(e).__name__, "writing the re-read object raised %r" % (e,), detail)
+        else:
+            l2 = b2.getvalue().splitlines()
+            a2 = max(i for i, ln in enumerate(l2) if ln.startswith("~A"))
+            t1 = [t for p_ in phys for t in p_]
+            t2 = [t for ln in l2[a2 + 1:] for t in ln.split()]
+            if t1 != t2:
+                k = next((i for i, (a, b) in enumerate(zip(t1, t2)) if a != b), min(len(t1), len(t2)))
+                ctx.violation("second-generation-data-tokens-differ:" + tag, "re-writing the object read back gives %d data tokens (first difference at #%d: %r vs %r), the first write gave %d" % (
+                    len(t2), k, t1[k:k + 1], t2[k:k + 1], len(t1)), dict(detail, second_text=b2.getvalue()[:4000]))
     # ---- a second write after in-place edits of the samples must carry the edited samples --------------------------
     if case.get("seed", 0) % 3 == 2 and n >= 2:
         ctx.count("rewrites_after_inplace_edit")
